@@ -152,7 +152,7 @@ OPS = {
     B('no-strand-swap', GA + 'feature_coordinate_genomic_to_gene', stmt_text('start, end = (end, start)'), to_pass, 'C11.b'),
     B('variant-end-not-inclusive', GA + 'variant_coordinates_to_gene', stmt_text('end_gene = self.coordinate_genomic_to_gene(end_genomic - 1, gene_id)'),
       replace_with('end_gene = self.coordinate_genomic_to_gene(end_genomic, gene_id)'), 'C11.b'),
-    B('intron-end-inclusive', 'gtf.TranscriptAnnotationModel:TranscriptAnnotationModel.get_transcript_index', expr_text('exon.location.end > genomic_index'), replace_with('exon.location.end >= genomic_index'), 'C11.c'),
+    B('intron-end-inclusive', 'gtf.TranscriptAnnotationModel:TranscriptAnnotationModel.get_transcript_index', expr_text('exon.location.end > genomic_index'), replace_with('exon.location.end >= genomic_index'), 'C11.i'),
     B('register-before-load', 'gtf.GTFPointer:GenePointerDict.__getitem__', stmt_text('pointer: GenePointer = self.get_pointer(__key)'), add_before('self._cached_keys.appendleft(__key)'), 'C11.d'),
     B('evict-other-key', 'gtf.GTFPointer:TranscriptPointerDict.__getitem__', stmt_text('self._cache.pop(key_pop)'), replace_with('self._cache.pop(__key, None)'), 'C11.d'),
     B('reader-no-offset', 'gtf.GtfIO:line_to_seq_feature', expr_text('int(fields[3]) - 1'), replace_with('int(fields[3])'), 'C11.e'),
